@@ -56,9 +56,8 @@ func (b *exampleBuilder) buildExampleForObjectNode(node *ischema.ObjectNode) ([]
 	defer exampleBufferPool.Put(buf)
 
 	buf.WriteByte('{')
-	children := node.Children()
-	length := len(children)
-	for i, childNode := range children {
+	first := true
+	for i, childNode := range node.Children() {
 		ex, err := b.Build(childNode)
 		if err != nil {
 			return nil, err
@@ -73,12 +72,13 @@ func (b *exampleBuilder) buildExampleForObjectNode(node *ischema.ObjectNode) ([]
 			return nil, err
 		}
 
+		if !first {
+			buf.WriteByte(',')
+		}
+		first = false
 		buf.Write(k)
 		buf.WriteByte(':')
 		buf.Write(ex)
-		if i+1 != length {
-			buf.WriteByte(',')
-		}
 	}
 	buf.WriteByte('}')
 	return buf.Bytes(), nil
@@ -111,9 +111,8 @@ func (b *exampleBuilder) buildExampleForArrayNode(node *ischema.ArrayNode) ([]by
 	defer exampleBufferPool.Put(buf)
 
 	buf.WriteByte('[')
-	children := node.Children()
-	length := len(children)
-	for i, childNode := range children {
+	first := true
+	for _, childNode := range node.Children() {
 		ex, err := b.Build(childNode)
 		if err != nil {
 			return nil, err
@@ -123,10 +122,11 @@ func (b *exampleBuilder) buildExampleForArrayNode(node *ischema.ArrayNode) ([]by
 			continue
 		}
 
-		buf.Write(ex)
-		if i+1 != length {
+		if !first {
 			buf.WriteByte(',')
 		}
+		first = false
+		buf.Write(ex)
 	}
 	buf.WriteByte(']')
 	return buf.Bytes(), nil
